@@ -293,7 +293,7 @@ func TestC04(t *testing.T) {
 			d = 5
 		}
 		var c projCase
-		c.Wire = drawWireCase(t, &gen.WireOpts{MaxDepth: d, MultiUnion: true, Drop: 0})
+		c.Wire = drawWireCase(t, &gen.WireOpts{MaxDepth: d, MultiUnion: true, Drop: 0, ManyDatums: true})
 		c.Projected = project(t, c.Wire.Target, 0)
 		c.ProjGo = c.Projected.GoString()
 		c.Sentinel = gen.IntIn(t, "sentinel", -1<<62, 1<<62)
